@@ -12,6 +12,7 @@ mod disas;
 mod engine;
 mod lift;
 mod loader;
+mod opreflect;
 mod operand;
 mod panics;
 mod reflect;
@@ -72,6 +73,7 @@ fn main() {
     out.insert("panics".into(), panics::extract(&mut cx));
     out.insert("disas".into(), disas::extract(&mut cx));
     out.insert("lift".into(), lift::extract(&mut cx));
+    out.insert("opreflect".into(), opreflect::extract(&mut cx));
     out.insert("failures".into(), json!(cx.failures));
     let v = Value::Object(out);
     std::fs::write(&args[2], serde_json::to_string_pretty(&v).unwrap()).unwrap();
